@@ -681,6 +681,15 @@ impl ConnState {
 
     #[cfg(feature = "dns_lookup")]
     pub(super) fn run_dns_lookup(&mut self) {
+        #[cfg(simple_irc_server_verif)]
+        if super::verif::FAKE_DNS.load(std::sync::atomic::Ordering::SeqCst) {
+            super::verif::fake_dns_spawn(
+                self.dns_lookup_sender.take().unwrap(),
+                self.verif_key.clone(),
+                self.user_state.ip_addr,
+            );
+            return;
+        }
         super::dns_lookup(
             self.dns_lookup_sender.take().unwrap(),
             self.user_state.ip_addr,
